@@ -236,8 +236,11 @@ func (s *Session) prepare(spec HarnessSpec, res *HarnessResult, prep *Prepared) 
 		}()
 		st := ex.NewState()
 		ex.RunInit(st, fn.Pkg)
-		nInit := len(ex.Outcomes)
-		_ = nInit
+		// outcomes of package initialisers are not about the property (kept as a note only)
+		if n := len(ex.Outcomes); n > 0 {
+			ex.Notes = append(ex.Notes, fmt.Sprintf("%d outcome(s) during package initialisation were discarded (first: %s %s)", n, ex.Outcomes[0].Kind, ex.Outcomes[0].Msg))
+			ex.Outcomes = nil
+		}
 		ex.CallFn(st, nil, fn, nil, nil, 0)
 	}()
 	res.ExecS = time.Since(t0).Seconds()
@@ -282,7 +285,20 @@ func (s *Session) prepare(spec HarnessSpec, res *HarnessResult, prep *Prepared) 
 			continue
 		}
 		if o.Kind == "cover" {
-			covers = append(covers, &obligation{kind: o.Kind, msg: o.Msg, pos: o.Pos, cond: o.Cond, members: 1})
+			// a label is covered if any of its occurrences (loop unrollings, call sites) is reachable
+			var cv *obligation
+			for _, c := range covers {
+				if c.msg == o.Msg {
+					cv = c
+					break
+				}
+			}
+			if cv == nil {
+				cv = &obligation{kind: o.Kind, msg: o.Msg, pos: o.Pos, cond: smt.False}
+				covers = append(covers, cv)
+			}
+			cv.cond = smt.Or(cv.cond, o.Cond)
+			cv.members++
 			continue
 		}
 		key := o.Kind + "|" + o.Msg
